@@ -119,6 +119,11 @@ def check_input(seed, tier, acc, nvar):
                 out = os.path.join(wd, 'out.cpp' if kind == 'pybind' else 'toolbox')
                 env = dict(os.environ)
                 env.update({'PYTHONPATH': REPO, 'PYTHONHASHSEED': v['PYTHONHASHSEED'], 'LC_ALL': v['LC_ALL'], 'LANG': v['LC_ALL']})
+                # other things a pure function of inputs and options cannot depend on: home / temp directory, time zone, user
+                home = os.path.join(root, 'home%d' % vi)
+                os.makedirs(os.path.join(home, 'tmp'), exist_ok=True)
+                env.update({'HOME': home, 'TMPDIR': os.path.join(home, 'tmp'), 'TZ': ['UTC', 'Asia/Tokyo', 'America/New_York'][vi % 3],
+                            'USER': 'user%d' % vi, 'LOGNAME': 'user%d' % vi, 'HOSTNAME': 'host%d' % vi})
                 if v.get('force_ascii'):
                     # no locale coercion, no UTF-8 mode: the locale encoding really is ASCII (D24, repaired)
                     env.update({'LC_ALL': 'C', 'LANG': 'C', 'PYTHONCOERCECLOCALE': '0', 'PYTHONUTF8': '0'})
@@ -157,6 +162,12 @@ def check_input(seed, tier, acc, nvar):
                     vs.append({'what': '%s output differs from the baseline under a variation' % kind, 'variation': v})
                 if extra:
                     vs.append({'what': '%s run created files outside the requested output' % kind, 'files': extra})
+                left = [os.path.join(dp, f) for dp, _, fs_ in os.walk(home) for f in fs_]
+                if left:
+                    vs.append({'what': '%s run left files in the home / temp directory' % kind, 'files': left[:4]})
+                stray_src = sorted(set(os.listdir(os.path.dirname(src))) - {'mod.i', 'tpl.tpl'})
+                if stray_src:
+                    vs.append({'what': '%s run wrote next to its input' % kind, 'files': stray_src[:4]})
         # ---- wrapper reuse: history of wrap_file calls on one PybindWrapper
         texts = [make_text(seed + 1000 * k) for k in range(r.choice([2, 3, 5]))] + [text]
         xml = ''
